@@ -402,6 +402,24 @@ func quasiSafePrimeRule(P *Program, R *Report) {
 			idxSeen[idx] = cn
 			R.ok(rule, kQSPPVer+":index:"+cn, fmt.Sprintf("component index constant %d is unique", idx))
 		}
+		// the component's own precondition on N (where it has one): it bounds the error of one iteration
+		if vf0 := P.Func(vname); vf0 != nil {
+			switch cn {
+			case "almostSafePrimeProduct":
+				be := P.bigEval(vf0)
+				mp(P, R, rule, vname+":N-mod-3", "accept => N mod 3 == 1 was tested (keeps the error of one iteration at 4/5)", vf0, AcceptTrue(0),
+					&MustPass{Match: eqTermMatcher(be, termFn("Mod", tsym("arg#0"), tconst(3)), tconst(1))})
+			case "disjointPrimeProduct":
+				mp(P, R, rule, vname+":N-not-prime", "accept => N.ProbablyPrime(k >= 20) was false (a Fermat prime passes the per-iteration test)", vf0, AcceptTrue(0), &MustPass{Match: func(a Atom) bool {
+					c, _ := callAndResult(a.V)
+					if c == nil || a.Want != False || bigMethod(c) != "ProbablyPrime" || desc(callArgs(c)[0]) != "arg#0" {
+						return false
+					}
+					k, ok := constInt(callArgs(c)[1])
+					return ok && k >= 20
+				}})
+			}
+		}
 		// iterations: verifier loop bound == structure-enforced length
 		vf := mustFunc(P, R, rule, vname)
 		sf := mustFunc(P, R, rule, "keyproof."+cn+"VerifyStructure")
